@@ -590,7 +590,7 @@ def engine_correspondence(ctx: Ctx, st):
     # real Engine.train histories with validation data, mode-dependent additional model, initialization, swv, errors
     chain = eng.chain_codes()
     for i in range(ctx.budget(12, 200)):
-        c, procs, val, theta = eng.gen_vhistory(rng, k=1 if i % 4 else rng.choice([2, 3]))
+        c, procs, val, theta = eng.gen_vhistory(rng, k=1 if i % 4 else rng.choice([2, 3]), restart={1: 1, 6: 0, 9: 1}.get(i))
         kinds = "+".join(sorted({["finish", "vanish", "kill", "crash", "error"][p[0]] for p in procs[:-1]}))
 
         def impl(c=c, procs=procs, val=val, theta=theta):
@@ -1099,6 +1099,25 @@ def check_vhistory(c, procs, val, theta, out=None):
     return None
 
 
+def check_restart(c, val, theta, ini):
+    """a run leaves checkpoints; `Engine.train(resume=False[, initialization])` on the same directory must start at iteration 0
+    on the trajectory of a fresh run (from the initialization file's weights when given)"""
+    d = c["d"]
+    with toy.scratch_dir() as tmp:
+        init = eng.make_init_file(os.path.join(tmp, "init"), c, theta)
+        exp = os.path.join(tmp, "exp")
+        os.mkdir(exp)
+        eng.run_vprocess(exp, c, stop=(1, c["T"] - 2, 0), resume=True, val_steps=val[0], has_val=val[1])
+        r = eng.run_vprocess(exp, c, resume=False, init_path=init if ini else None, val_steps=val[0], has_val=val[1])
+    ref_c = dict(c, w0=[float(v) for v in theta[:d]]) if ini else c
+    with toy.scratch_dir() as tmp:
+        full = eng.run_vprocess(tmp, ref_c, resume=False, val_steps=val[0], has_val=val[1], aux0=theta[d:] if ini else None)
+    if r["start"] != 0 or r["records"] != full["records"]:
+        return (f"Engine.train(resume=False, initialization={bool(ini)}) over a directory with checkpoints started at iteration "
+                f"{r['start']} with {len(r['records'])} iterations; first record {r['records'][:1]}, fresh run {full['records'][:1]}")
+    return None
+
+
 def _vh_replay(c, procs, val, theta):
     r = toy._cfg_replay(c)
     r.update({"op": "vhistory", "procs": procs, "val": list(val), "theta": [str(v) for v in theta]})
@@ -1256,6 +1275,13 @@ def engine_oracle(ctx: Ctx, st, deep: bool):
             ctx.hist["oracle/vhistory/misaligned-skipped"] = ctx.hist.get("oracle/vhistory/misaligned-skipped", 0) + 1
         elif bad:
             yield Violation(bad[0], bad[1], _vh_replay(c, procs, val, theta))
+    # resume=False ignores whatever the directory holds (with and without an initialization checkpoint)
+    for ini in (0, 1):
+        c, _, val, theta = eng.gen_vhistory(rng, k=1)
+        ctx.count(("restart", ini, toy.proto("h", toy.toy_groups(c, [c["ck"]]))), True, bucket="oracle/restart-resume=False")
+        bad = check_restart(c, val, theta, ini)
+        if bad:
+            yield Violation("resume-false-resumes", bad, dict(_vh_replay(c, [], val, theta), op="restart", ini=ini))
     # (e) the Checkpointer API
     for bucket, key, what, case in api_checks(rng):
         ctx.count(("api", str(case)), True, bucket="oracle/api/" + bucket)
@@ -1293,6 +1319,9 @@ def replay(rep: dict) -> bool:
     if rep.get("op") == "vhistory":
         c = toy._cfg_from_replay(rep)
         return check_vhistory(c, rep["procs"], tuple(rep["val"]), [Fr(v) for v in rep["theta"]]) not in (None, "misaligned")
+    if rep.get("op") == "restart":
+        c = toy._cfg_from_replay(rep)
+        return check_restart(c, tuple(rep["val"]), [Fr(v) for v in rep["theta"]], rep["ini"]) is not None
     if rep.get("op") == "api":
         return _api_case(rep["case"]) is not None
     if rep.get("op") == "lr2":
